@@ -8,6 +8,7 @@ package absnfs
 
 import (
 	"bytes"
+	"hash/fnv"
 	"io"
 	"os"
 	"path"
@@ -270,7 +271,15 @@ func (h *NFSProcedureHandler) handleRename(body io.Reader, reply *RPCReply, auth
 		return nfsErrorWithDoubleWcc(reply, mapError(err)), nil
 	}
 
-	if err := h.server.handler.Rename(srcDir, srcName, dstDir, dstName); err != nil {
+	// A CREATE of the target name holds this mutex from its existence check to the creation
+	// (see handleCreate): a file moved onto the name in between would be created anew, empty.
+	dstHash := fnv.New32a()
+	dstHash.Write([]byte(path.Join(dstDir.path, dstName)))
+	dstCreateMu := &h.server.handler.createMu[dstHash.Sum32()%uint32(len(h.server.handler.createMu))]
+	dstCreateMu.Lock()
+	err = h.server.handler.Rename(srcDir, srcName, dstDir, dstName)
+	dstCreateMu.Unlock()
+	if err != nil {
 		srcDirPostAttrs, _ := h.server.handler.GetAttr(srcDir)
 		if srcDirPostAttrs == nil {
 			srcDirPostAttrs = srcDirPreAttrs
